@@ -53,6 +53,8 @@ class FnContract:
     yields: Optional[Callable] = None      # yields(ctx) -> Bool over ctx.yielded
     exc_any_ok: bool = False               # `raises` lists are not exhaustive (used for assumed externals)
     may_raise_any: bool = False            # assumed external: may raise any Exception (EXC-ANY) besides `raises`
+    bounded: str = ""                      # non-empty: the parameter makers enumerate a BOUNDED scope (described here); the
+                                           # obligations are labelled BOUNDED and never counted as proved (DESIGN 2.8)
     frame: Optional[Callable] = None       # call-site frame effect on ghost / abstract state: frame(ex, st, ctx), run after the
                                            # `modifies` havoc and before any outcome is produced (normal AND exceptional)
 
